@@ -1,6 +1,7 @@
 import AdeuModel.Model.History
 import AdeuModel.Lemmas.Engine
 import AdeuModel.Lemmas.Review
+import AdeuModel.Lemmas.History
 /-
 C07 — multi-round negotiation keeps the document consistent.
 
@@ -59,6 +60,17 @@ theorem C07_pending_resolvable (acc : Bool) (id : Str) (ns : List Node) :
 theorem C07_accept_all_clean (ns : List Node) :
     acceptedChars (ns.flatMap acceptAllN) = acceptedChars ns ∧ ∀ m ∈ ns.flatMap acceptAllN, isRevN m = false :=
   ⟨acceptedChars_acceptAllN ns, acceptAllN_noRev ns⟩
+
+/-- Over any history — edit batches by any authors, review actions, replies, accept-all, with save and reload
+between rounds — every story keeps its skeleton (each paragraph's style and properties, tables with their
+properties, rows, cells, other blocks, all in order; paragraphs are only ever added) and every comment entry
+that is present at some point is still there, in the same place of all four comment lists, at the end. -/
+theorem C07_history_frame (d : Document) (steps : List Step) :
+    (skel d.body).Sublist (skel (runHistory d steps).1.body) ∧
+    SkelLe d.headers (runHistory d steps).1.headers ∧ SkelLe d.footers (runHistory d steps).1.footers ∧
+    d.comments <+: (runHistory d steps).1.comments ∧ d.commentsEx <+: (runHistory d steps).1.commentsEx :=
+  let g := DocGrows_runHistory steps d
+  ⟨g.skel.body, g.skel.headers, g.skel.footers, g.comments, g.commentsEx⟩
 
 /-- the reached documents: one more than the number of steps, starting with the input -/
 theorem C07_reached_length (d : Document) (steps : List Step) :
